@@ -18,7 +18,7 @@ enum Outcome { O_SUCC = 0, O_FAIL, O_FLIP, O_NEVER, O_BLOCK };
 enum St { IDLE = 0, RUNNING, PAUSED, FINISHED, STOPPED };
 
 struct InSpec { int kind; long mode, a, b, tmo; std::vector<int> ch; };
-struct Ctl { long at_ms; int what; };        // 0 pause 1 resume 2 stop 3 reset+start
+struct Ctl { long at_ms; int what; bool glued = false; };        // 0 pause 1 resume 2 stop 3 reset+start
 
 struct LeafStart { int leaf; long n; long t; bool operator==(const LeafStart &o) const { return leaf == o.leaf && n == o.n && t == o.t; } };
 struct RunRec {
@@ -305,11 +305,19 @@ class Model {
 
   // ------------------------------------------------------------------ whole run
   void set_ambiguous(const std::string &why) { if (!ambiguous) { ambiguous = true; why_ambiguous = why; } }
+  void apply_ctl(int what) {
+    if (what == 0) { if (nd[0].st == RUNNING) pause(0); }
+    else if (what == 1) { if (nd[0].st == PAUSED) resume(0); }
+    else if (what == 2) { if (underway(0)) { stop(0); stopped = true; } }
+    else if (!second && !underway(0) && nd[0].st != IDLE) { reset(0); second = true; cur_run = 1; leaf_starts = 0; stopped = false; start(0); }
+  }
   // returns false when the model cannot predict this plan
   bool simulate(const std::vector<Ctl> &ctls, long end_ms) {
     now = 0; started = true;
-    start(0); drain();
     size_t ci = 0;
+    start(0);
+    while (ci < ctls.size() && ctls[ci].glued) { apply_ctl(ctls[ci].what); ++ci; }     // control calls issued right behind start(), in the same loop task
+    drain();
     while (!ambiguous && !overrun) {
       long t1 = -1; int who = -1; bool is_leaf = false; int ties = 0;
       for (size_t i = 0; i < nd.size(); ++i) {
@@ -332,11 +340,8 @@ class Model {
       } else {
         if (t2 == last_activity) { set_ambiguous("a control call lands at an instant with notifications in flight"); break; }
         now = t2;
-        int what = ctls[ci].what; ++ci;
-        if (what == 0) { if (nd[0].st == RUNNING) pause(0); }
-        else if (what == 1) { if (nd[0].st == PAUSED) resume(0); }
-        else if (what == 2) { if (underway(0)) { stop(0); stopped = true; } }
-        else if (!second && !underway(0) && nd[0].st != IDLE) { reset(0); second = true; cur_run = 1; leaf_starts = 0; stopped = false; start(0); }
+        // a control call and the ones glued to it run inside one loop task: notifications are delivered after the last of them
+        do { apply_ctl(ctls[ci].what); ++ci; } while (ci < ctls.size() && ctls[ci].glued);
         drain();
       }
     }
